@@ -197,6 +197,15 @@ class Lab:
             inst = dumps.installed(self.base_file)
             own = [gen.spec_of(lx) for lx in self.res['lexicons']]
             cands = [s for s in inst if s in own]
+            # prefer a lexicon that has extensions installed (its removal deletes several
+            # lexicons in one transaction)
+            bases = {gen.spec_of(lx) for lx in self.res['lexicons']
+                     if any((x.get('extends') or {}).get('id') == lx['id']
+                            and (x.get('extends') or {}).get('version') == lx['version']
+                            and gen.spec_of(x) in inst for x in self.res['lexicons'])}
+            pref = [s for s in cands if s in bases]
+            if pref and case['positions'][1] % 4:
+                cands = pref
             self.target = cands[case['positions'][0] % len(cands)] if cands else None
 
     def fresh_copy(self):
